@@ -45,6 +45,9 @@ def main():
 
             return selftest.run(eng)
         extra = {"episodes": a.episodes} if a.episodes else None
+        if a.episodes:
+            # an ad-hoc batch size is not the registered command: its evidence must not replace the committed one
+            os.environ.setdefault("VERIF_EVIDENCE_DIR", "/tmp/verif-adhoc-evidence")
         return driver.run_check(eng, a.tier, extra)
     except driver.HarnessError as e:
         print("HARNESS-ERROR", e)
